@@ -135,7 +135,8 @@ func TestC06(t *testing.T) {
 		runOne(&sr.Scenario, sr.picker(), true)
 	} else {
 		for i := 0; i < pick(250, 2500); i++ {
-			sc := &srvScenario{Concurrency: []int{1, 2, 3, 5}[rng.Intn(4)]}
+			// the limit does not depend on the other options (push enabled or not)
+			sc := &srvScenario{Concurrency: []int{1, 2, 3, 5}[rng.Intn(4)], AllowPush: rng.Intn(3) == 0}
 			held := 0
 			if i%3 == 0 {
 				held = 3
@@ -155,6 +156,9 @@ func TestC06(t *testing.T) {
 			// failing notifications must give their slots back
 			{Concurrency: 2, Ops: []envOp{{Kind: "send", Arg: reqNote("n1", "err")}, {Kind: "send", Arg: reqNote("n2", "err")}, {Kind: "send", Arg: reqNote("n3", "errcode:-32600")}, {Kind: "send", Arg: reqCall(1, "c4", "ok")}}},
 			{Concurrency: 1, Ops: []envOp{{Kind: "send", Arg: reqBatch(reqNote("n1", "err"), reqCall(1, "c2", "err"), reqCall(2, "c3", "ok"))}, {Kind: "send", Arg: reqCall(3, "c4", "ok")}}},
+			// a serial server stays serial when pushes are enabled, also while a handler awaits a callback
+			{Concurrency: 1, AllowPush: true, Ops: []envOp{{Kind: "send", Arg: reqCall(1, "Hc1", "ok")}, {Kind: "send", Arg: reqCall(2, "c2", "ok")}, {Kind: "send", Arg: reqBatch(reqCall(3, "c3", "ok"), reqCall(4, "c4", "ok"))}}},
+			{Concurrency: 1, AllowPush: true, Ops: []envOp{{Kind: "send", Arg: reqCall(1, "c1", "cb:k1")}, {Kind: "send", Arg: reqCall(2, "c2", "ok")}, {Kind: "cbreply", Arg: "k1"}}},
 		}
 		for _, sc := range corpus {
 			for j := 0; j < pick(30, 300); j++ {
@@ -515,6 +519,9 @@ func TestC07(t *testing.T) {
 	} else {
 		for i := 0; i < pick(250, 2500); i++ {
 			sc := &srvScenario{Concurrency: 1 + rng.Intn(3)}
+			if rng.Intn(5) == 0 {
+				sc.DeadCtxAt = 1 + rng.Intn(4)
+			}
 			sc.Ops = c07Traffic(rng, 3+rng.Intn(5))
 			for k := rng.Intn(3); k > 0; k-- {
 				sc.Ops = insertOp(rng, sc.Ops, envOp{Kind: "cancel", Arg: []string{"1", "2", "3", "9", `"x"`}[rng.Intn(5)]})
@@ -533,6 +540,10 @@ func TestC07(t *testing.T) {
 			{Concurrency: 2, Ops: []envOp{{Kind: "send", Arg: c07Mark(0, reqCall(1, "c1", "ok"), reqCall(1, "c2", "ok"), reqCall(2, "c3", "ok"))}, {Kind: "send", Arg: c07Mark(1, reqCall(1, "c4", "ok"))}}},
 		}
 		corpus = append(corpus,
+			// a call whose base context has already ended is answered with an error at once, but it is
+			// in flight - and its id reserved - until its batch has been answered
+			&srvScenario{Concurrency: 2, DeadCtxAt: 1, Ops: []envOp{{Kind: "send", Arg: c07Mark(0, reqCall(1, "c1", "ok"), reqCall(2, "Hc2", "ok"))}, {Kind: "send", Arg: c07Mark(1, reqCall(1, "c3", "ok"))}}},
+			&srvScenario{Concurrency: 3, DeadCtxAt: 2, Ops: []envOp{{Kind: "send", Arg: c07Mark(0, reqCall(2, "Hc1", "ok"), reqCall(1, "c2", "ok"))}, {Kind: "send", Arg: c07Mark(1, reqCall(1, "c3", "ok"))}, {Kind: "send", Arg: c07Mark(2, reqCall(1, "c4", "ok"))}}},
 			&srvScenario{Concurrency: 2, Ops: []envOp{{Kind: "send", Arg: c07Mark(0, `{"jsonrpc":"2.0","id":7,"params":["c1","ok"]}`)}, {Kind: "send", Arg: c07Mark(1, reqCall(7, "c2", "ok"))}}},
 			&srvScenario{Concurrency: 2, Ops: []envOp{{Kind: "send", Arg: c07Mark(0, `{"jsonrpc":"2.0","id":"x","method":"m","params":["c1","ok"],"zz":1}`)}, {Kind: "send", Arg: c07Mark(1, reqCall("x", "c2", "ok"))}}},
 		)
